@@ -38,13 +38,24 @@ func StartSessionGC() {
 			now := time.Now()
 			for item := range sessionStore.Items() {
 				if item.ExpiresAt.Before(now) {
-					sessionStore.Delete(item.ID)
+					// Only if it is still this (expired) session: a request may have extended it meanwhile.
+					removeIfCurrent(item)
 					slog.Debug("Deleted expired session", "session_id", item.ID)
 				}
 			}
 		}
 	}()
 	gcRunning = true
+}
+
+// Removes sess from the store unless it has been replaced or removed in the meantime.
+func removeIfCurrent(sess *Session) {
+	sessionStore.Update(sess.ID, func(cur *Session, ok bool) (*Session, bool) {
+		if ok && cur == sess {
+			return nil, false
+		}
+		return cur, ok
+	})
 }
 
 func GetSession(sid string) (*Session, bool) {
@@ -58,7 +69,7 @@ func GetSession(sid string) (*Session, bool) {
 	// it must be refused, not extended by the check below.
 	if !sess.ExpiresAt.After(time.Now()) {
 		slog.Debug("Session has expired", "session_id", sid, "expires_at", sess.ExpiresAt)
-		sessionStore.Delete(sid)
+		removeIfCurrent(sess)
 		return nil, false
 	}
 
@@ -69,8 +80,16 @@ func GetSession(sid string) (*Session, bool) {
 		// modified in place: store an extended copy instead.
 		extended := *sess
 		extended.ExpiresAt = time.Now().Add(defaultLifetime)
-		sess = &extended
-		sessionStore.Set(sid, sess)
+		// Only while the stored session is still the one read above: a logout that came in between
+		// has removed it, and storing the copy would bring the logged-out session back.
+		current := sess
+		sessionStore.Update(sid, func(cur *Session, ok bool) (*Session, bool) {
+			if !ok || cur != current {
+				return cur, ok
+			}
+			sess = &extended
+			return sess, true
+		})
 	}
 
 	return sess, ok
